@@ -8,10 +8,26 @@
 #include <sstream>
 #include <string>
 #include <vector>
+#include <algorithm>
+#include <mutex>
 #define private public
 #include "collider.h"
 #undef private
 using namespace manifold;
+
+// -DC14_PARALLEL (par / sim library variants): the queries run with parallel = true and a
+// mutex-protected recorder; the recorded pairs are sorted before printing (their order is then
+// schedule dependent; the set and the multiplicities are what the property speaks about)
+#ifdef C14_PARALLEL
+static const bool kParallel = true;
+static std::mutex recMutex;
+#define C14_LOCK std::lock_guard<std::mutex> guard(recMutex)
+#define C14_SORT(v) std::sort((v).begin(), (v).end())
+#else
+static const bool kParallel = false;
+#define C14_LOCK
+#define C14_SORT(v)
+#endif
 
 // coordinates at or beyond 2^59 in magnitude stand for +-infinity (the model keeps them as huge
 // integers: the embedding is order preserving, and the closed-interval test only compares)
@@ -73,15 +89,16 @@ int main() {
     }
     out << " pairs";
     std::vector<std::pair<int, int>> pairs;
-    auto rec = [&](int q, int l) { pairs.push_back({q, l}); };
+    auto rec = [&](int q, int l) { C14_LOCK; pairs.push_back({q, l}); };
     auto recorder = MakeSimpleRecorder(rec);
     if (kind == 0) {
-      if (self) col.Collisions<true, Box>(recorder, qb.cview(), false);
-      else col.Collisions<false, Box>(recorder, qb.cview(), false);
+      if (self) col.Collisions<true, Box>(recorder, qb.cview(), kParallel);
+      else col.Collisions<false, Box>(recorder, qb.cview(), kParallel);
     } else {
-      if (self) col.Collisions<true, vec3>(recorder, qp.cview(), false);
-      else col.Collisions<false, vec3>(recorder, qp.cview(), false);
+      if (self) col.Collisions<true, vec3>(recorder, qp.cview(), kParallel);
+      else col.Collisions<false, vec3>(recorder, qp.cview(), kParallel);
     }
+    C14_SORT(pairs);
     for (auto& p : pairs) out << " " << p.first << " " << p.second;
     printf("%s\n", out.str().c_str());
     // raw arrays for the certificate
@@ -106,16 +123,17 @@ int main() {
       }
       printf("%s\n", c2.str().c_str());
       std::vector<std::pair<int, int>> pr;
-      auto rc = [&](int q, int l) { pr.push_back({q, l}); };
+      auto rc = [&](int q, int l) { C14_LOCK; pr.push_back({q, l}); };
       auto rr = MakeSimpleRecorder(rc);
       if (kind == 0) {
-        if (self) col.Collisions<true, Box>(rr, qb.cview(), false);
-        else col.Collisions<false, Box>(rr, qb.cview(), false);
+        if (self) col.Collisions<true, Box>(rr, qb.cview(), kParallel);
+        else col.Collisions<false, Box>(rr, qb.cview(), kParallel);
       } else {
-        if (self) col.Collisions<true, vec3>(rr, qp.cview(), false);
-        else col.Collisions<false, vec3>(rr, qp.cview(), false);
+        if (self) col.Collisions<true, vec3>(rr, qp.cview(), kParallel);
+        else col.Collisions<false, vec3>(rr, qp.cview(), kParallel);
       }
       std::ostringstream o2;
+      C14_SORT(pr);
       o2 << "A " << id << suffix;
       for (auto& p : pr) o2 << " " << p.first << " " << p.second;
       printf("%s\n", o2.str().c_str());
